@@ -35,6 +35,10 @@ type csDesc struct {
 	First      int   `json:"first"`      // index of the start event whose context is cancelled
 	AnswersPre int   `json:"answersPre"` // answers given in that chain before the cancellation
 	Order      []int `json:"order"`      // order in which the other start events are triggered
+	// Gateways: bit i set = the chain of start event i begins with a gateway the
+	// token passes (inclusive for even i, exclusive for odd i): gateways keep
+	// internal subscribers of the instance's tracer (flow trackers)
+	Gateways int `json:"gateways,omitempty"`
 }
 
 func runCancelledStart(d csDesc) (sym, det, inconcl string, traces []string) {
@@ -45,6 +49,14 @@ func runCancelledStart(d csDesc) (sym, det, inconcl string, traces []string) {
 		st := b.Add(gen.KStart)
 		starts = append(starts, st.ID)
 		cur := st
+		if d.Gateways&(1<<i) != 0 {
+			gw := b.Add(gen.KInc)
+			if i%2 == 1 {
+				gw.Kind = gen.KXor
+			}
+			b.Connect(cur, gw)
+			cur = gw
+		}
 		for k := 0; k < n; k++ {
 			t := b.Add(gen.KTask)
 			chainTasks[i] = append(chainTasks[i], t.ID)
@@ -211,7 +223,7 @@ func TestC09CancelledStart(t *testing.T) {
 	}
 	rapid.Check(t, func(rt *rapid.T) {
 		n := rapid.IntRange(2, 3).Draw(rt, "starts")
-		d := csDesc{First: rapid.IntRange(0, n-1).Draw(rt, "first"), AnswersPre: rapid.IntRange(0, 2).Draw(rt, "answersPre")}
+		d := csDesc{First: rapid.IntRange(0, n-1).Draw(rt, "first"), AnswersPre: rapid.IntRange(0, 2).Draw(rt, "answersPre"), Gateways: rapid.IntRange(0, 1<<n-1).Draw(rt, "gateways")}
 		for i := 0; i < n; i++ {
 			d.Chains = append(d.Chains, rapid.IntRange(1, 4).Draw(rt, "chain"))
 		}
